@@ -17,7 +17,7 @@ ENGINES = [{
                       'subprocess.call seam), reference models as oracles; every chunk of cases runs in a process '
                       'forked from a pristine parent; candidate violations are re-run in a fresh interpreter',
 }]
-NOTES = ('All checks: ./check <ID> --tier quick|thorough; exactly_lib is imported from /repo/src (VERIF_REPO overrides) '
+NOTES = ('The space each check enumerates is stated exactly in the `rule` field of its evidence file (written by the check itself); the level texts below describe the core of each check - every check was extended in four rounds of independent defect seeding (161 seeded changes, all detected; DESIGN.md 8.5 lists what each round added, seeded/CATCH.md which check catches which change).  All checks: ./check <ID> --tier quick|thorough; exactly_lib is imported from /repo/src (VERIF_REPO overrides) '
          'at run time, nothing is cached between runs.  Known findings: /verif/known_findings.json.')
 
 MC = 'explicit-state exploration of the real implementation'
@@ -94,7 +94,7 @@ CHECKS['C06'] = dict(
 CHECKS['C14'] = dict(
     level='model_checking',
     technique='explicit-state exploration of real StringSource objects: every short sequence of access events (freeze / as_str / as_lines fully, partially, in two steps / as_file / write_to) x source kind x transformer chain x mem_buff_size x text, every observation compared with one reference text',
-    text='1.9e6 event sequences (quick) on sources built by the public factories/parsers: {constant, here-document, file, program output} x model frozen first or not x 15 transformer chains '
+    text='~3.9e6 event sequences (quick) on sources built by the public factories/parsers: {constant, here-document, file, program output} x model frozen first or not x 15 transformer chains '
          '(thorough 20) x all event sequences of length <=2 plus freeze-prefixed length 3 (thorough: all of length 3) x mem_buff_size {1,2,|T|,|T|+1,8192} (and 100/8191..8193 on large texts) x all texts of '
          'length <=2 (thorough 3) over {a,LF,CR,FF,NEL,LS} plus CR LF / no-final-newline / buffer-sized texts.  Every observation must equal the single reference text and its division at LF.  '
          'CLI slice: M, identity-wrapped M, ( M && M ), run-cat-wrapped M and equals between all source kinds must all pass for the same text, with MainPrograms built with mem_buff_size 1 (3, 7).',
@@ -184,7 +184,7 @@ CHECKS['C12'] = dict(
 CHECKS['C18'] = dict(
     level='exploration',
     technique='exhaustive single-mutation neighbourhood (token deletion / duplication / transposition / replacement by 48 troublesome tokens, truncation at every character, quote imbalance, self-reference) of a seed corpus with every instruction and type form, run through the real CLI with virtual processes',
-    text='~130 valid seed lines (every instruction of every phase, every form of every type, definitions and applied forms) each checked to pass, then every single mutation (~51 000 cases, quick; thorough adds all pairs of '
+    text='~130 valid seed lines (every instruction of every phase, every form of every type, definitions and applied forms) each checked to pass, then every single mutation (~100 000 cases, quick; thorough adds all pairs of '
          'replacements from a reduced set): execute must return, exit code in {0,32,33,65,128}, stdout exactly one identifier consistent with it, never INTERNAL_ERROR / traceback / escaping exception / endless wait; '
          'exit 65 names the source. Plus header mutations and raw files (empty, NUL bytes, BOM, CR LF, 100 kB line, thousands of blank lines).',
     note='The property quantifies over every UTF-8 text; what is decided is the complete 1- (thorough: partial 2-) mutation neighbourhood of the corpus. Found and repaired KF-C18-INT and KF-C18-REPL (fix: commits); '
